@@ -70,6 +70,15 @@ CHECKS['C05'] = dict(level=MC, ref='4 C05',
     note='bounded: 150/2500 swap programs, 600/8000 networks of 2-4 tensors with two sectors per leg and mostly dimension one, <=24 orders each; fkron <=3 operators; two KNOWN FINDINGS (ncon scheduler: '
          'swap on a traced label; AssertionError in _resolve_bad_swaps) are reproduced and reported on every run',
     technique='TLA+ reference semantics (TensorOps!SwapGate/Ncon, Fock) + TLC model checking of the CAR + trace validation of recorded calls for all contraction orders')
+CHECKS['C16'] = dict(level=MC, ref='4 C16',
+    text='LruCache.tla models the caches as instances (maxsize, LRU order, stored values) bound to call sites, with set_cache_maxsize creating new instances while import-time aliases keep the old '
+         'one; TLC checks size, entries-never-altered and transparency (result = F(key)) over all histories to depth 7. Binding without source change: every lru_cache binding in yastn.tensor.* is '
+         'proxied; each real call logs key digest (up to Python key equality), hit/miss, digest of the returned value and of an uncached recomputation; TraceLruCache.tla requires the event sequence '
+         'to be a behaviour of the model with ret = recomputation on every call and ret = stored value on every hit. Hyper part: programs replayed in ONE process under configurations sharing block '
+         'layout but differing in symmetry group / fermionic flags, with caches warm, cold, size one, and cleared/resized at arbitrary points: all results bit-identical.',
+    note='bounded: 3 families (U1/Z2/Z3; U1xU1 & Z2xU1 with 4 fermionic flag settings; U1xU1xZ2) x 12 (quick) / 120 (thorough) programs incl. operands fused from different sector content x 5 cache modes; '
+         '14+ cached functions exercised (vacuity gate: >= 10); oe_blocksparse path cache not included',
+    technique='TLA+ state machine of LRU caches (LruCache) + TLC exhaustive + trace validation of proxied real cache calls + hyper-trace over cache states')
 NA = {}
 m = {"version": 1, "setup_cmd": "true",
      "hooks": {"guard": "YASTN_VERIF", "enable": "no source hooks so far: the harness wraps the public API from outside and imports yastn live from /repo (override: VERIF_REPO)",
